@@ -106,15 +106,15 @@ Proof.
     destruct (N.eqb_spec m 2), (N.eqb_spec m 3); try reflexivity; lia. }
   assert (Hbc : body_calls_of m a = body_calls a).
   { unfold body_calls_of. unfold is_d_provided in Hm. apply andb_true_iff in Hm as [_ H2]. apply N.leb_le in H2.
-    destruct (N.eqb_spec m 24); [lia|]. destruct (N.eqb_spec m 35); [lia|]. cbn [orb]. destruct (N.eqb_spec m 30); [lia|]. destruct (N.eqb_spec m 34); [lia|reflexivity]. }
+    destruct (N.eqb_spec m 24); [lia|]. destruct (N.eqb_spec m 35); [lia|]. cbn [orb]. destruct (N.eqb_spec m 30); [lia|]. destruct (N.eqb_spec m 34); [lia|]. destruct (N.eqb_spec m 37); [lia|reflexivity]. }
   rewrite <- Hbc. apply delegation_is_direct_calls_of; assumption.
 Qed.
 
 (* the provided methods whose body makes ONE required call with the same receiver kind - p_rc2 / p_rc3 (Rc<Self>),
-   p_arc2 (Arc<Self>), p_val2 (self): the instance travels into the helper, the required method gets it back
+   p_arc2 (Arc<Self>), p_val2 (self), and hprov of the hidden-API trait (&self): the instance travels into the helper, the required method gets it back
    (from_delegator), and the outcome is that of calling the required method directly with the caller's argument *)
 Definition pair_partner (m : N) : option N :=
-  if (m =? 24) || (m =? 35) then Some 23 else if m =? 30 then Some 29 else if m =? 34 then Some 33 else None.
+  if (m =? 24) || (m =? 35) then Some 23 else if m =? 30 then Some 29 else if m =? 34 then Some 33 else if m =? 37 then Some 36 else None.
 
 Theorem pair_delegation_is_one_direct_call fuel cfg armed s1 m r a b :
   pair_partner m = Some r -> armed <> 2 ->
@@ -128,7 +128,8 @@ Proof.
     destruct (N.eqb_spec m 24) as [->|N24]; [injection Hp as <-; split; reflexivity|].
     destruct (N.eqb_spec m 35) as [->|N35]; [injection Hp as <-; split; reflexivity|]. cbn [orb] in *.
     destruct (N.eqb_spec m 30) as [->|N30]; [injection Hp as <-; split; reflexivity|].
-    destruct (N.eqb_spec m 34) as [->|N34]; [injection Hp as <-; split; reflexivity|]. discriminate. }
+    destruct (N.eqb_spec m 34) as [->|N34]; [injection Hp as <-; split; reflexivity|].
+    destruct (N.eqb_spec m 37) as [->|N37]; [injection Hp as <-; split; reflexivity|]. discriminate. }
   destruct H23 as [H23 Hbc]. rewrite <- Hbc. apply delegation_is_direct_calls_of; assumption.
 Qed.
 
